@@ -97,7 +97,9 @@ def bucket (n : Nat) : String :=
 
 def isErr (st : Nat) : Bool := 400 ≤ st && st ≤ 599
 
-def handleFc (id mode kind sent : String) (obs : List String) : String :=
+def handleFc (id mode kindFull sent : String) (obs : List String) : String :=
+  -- the same corpus is also sent over TLS (after the handshake): same expectations
+  let kind := if kindFull.startsWith "tls-" then tail 4 kindFull else kindFull
   match parseMode mode, parseSent sent, obs with
   | some _, some sentB, [recvH, rr] =>
     match unhex recvH, (kv "rr" [rr]).map (·.splitOn ":") with
@@ -138,8 +140,8 @@ def handleFc (id mode kind sent : String) (obs : List String) : String :=
           | some [] => "silent"
           | some (st :: _) => s!"{st / 100}xx"
           | none => "invalid-response"
-        let cls := (if kind.startsWith "abrupt-" then "abrupt" else if kind.startsWith "trunc-" then kind
-          else if kind.startsWith "random-" then kind else kind) ++ "/" ++ answered
+        let cls := (if kindFull.startsWith "tls-" then "tls-" else "") ++
+          (if kind.startsWith "abrupt-" then "abrupt" else kind) ++ "/" ++ answered
         out id agree (b2s spec) cls "-"
           s!"k={k} leftover={b2s leftover} lean={(lean.map showNats).getD "invalid"} rust={showNats rsts}"
       | _, _ => bad id "rr"
@@ -173,7 +175,12 @@ def handleSeq (id mode n log : String) (obs : List String) : String :=
     let spec := health && closed && unconnected == some 0 && served && panics &&
       tr.contains (.health true) && !tr.contains (.health false)
     let nf := (tr.filter fun e => match e with | .fault _ _ => true | _ => false).length
-    out id agree (b2s spec) s!"seq-{mode}-n{bucket n}" "-" (model ++ s!" faults={nf}")
+    let nh := tr.count (.health true)
+    let tls := id.startsWith "t"
+    -- TLS sequences: a health check on a fresh connection after EACH fault
+    let specTls := !tls || nh ≥ nf + 1
+    out id agree (b2s (spec && specTls)) s!"{if tls then "tls-" else ""}seq-{mode}-n{bucket n}" "-"
+      (model ++ s!" faults={nf} healths={nh}")
   | _, _, _ => bad id "parse"
 
 def handle (line : String) : String :=
